@@ -46,23 +46,45 @@ theorem C02_gen_first_flag_not_from_data : Generated.C02.firstFlagFromData = som
 /-- **No clear-text traffic.**  For every peer, every callback behaviour and every pick order:
 every write of the session that did not go through an installed TLS layer is the stream header
 or the STARTTLS request — no other feature ever writes in clear text. -/
-theorem C02_no_cleartext (cfg : Cfg) (hc : Compliant cfg.toFCfg) (st0 : Mask)
+theorem C02_no_cleartext (cfg : Cfg) (st0 : Mask) (hc : Compliant cfg.toFCfg st0)
     (hs : has st0 Secure = false) (hr : has st0 Ready = false) (i : Input) (fuel : Nat) :
     ∀ e ∈ (run cfg st0 i fuel).1, ∀ id, e ≠ .wOther id false := by
   intro e he id heq
-  have := (run_safe cfg hc st0 hs hr i fuel).1 e he
+  have := (run_safe cfg st0 hc hs hr i fuel).1 e he
   rw [heq] at this
   cases this
 
 /-- **Ready only when protected.**  Whatever the peer advertises, omits or answers, the outcome
 is an error or a session whose state has `Secure` and whose connection has a TLS layer. -/
-theorem C02_ready_only_secured (cfg : Cfg) (hc : Compliant cfg.toFCfg) (st0 : Mask)
+theorem C02_ready_only_secured (cfg : Cfg) (st0 : Mask) (hc : Compliant cfg.toFCfg st0)
     (hs : has st0 Secure = false) (hr : has st0 Ready = false) (i : Input) (fuel : Nat)
     (st : Mask) (t : Bool) (hd : (run cfg st0 i fuel).2 = .done st t) :
     has st Secure = true ∧ t = true := by
-  have := (run_safe cfg hc st0 hs hr i fuel).2
+  have := (run_safe cfg st0 hc hs hr i fuel).2
   rw [hd] at this
   exact this
+
+/-- the two theorems above in the words of the property: it suffices that every other
+configured feature has `Secure` among its `Necessary` bits -/
+theorem C02_secure_features_suffice (cfg : Cfg) (st0 : Mask) (hs : has st0 Secure = false)
+    (h : ∀ f ∈ cfg.others, has f.nec Secure = true) : Compliant cfg.toFCfg st0 :=
+  compliant_of_secure cfg.toFCfg st0 hs h
+
+/-- the built-in features: SASL (`Necessary: Secure`) and resource binding (`Necessary: Authn`),
+with the masks read from the real values, are not negotiable on a stream that is neither
+secured nor authenticated — so a client configured with STARTTLS, SASL and bind satisfies the
+hypothesis of the theorems above -/
+theorem C02_gen_builtin_features_comply :
+    ∃ sn sp bn bp, Generated.C02.saslNecessary = some sn ∧ Generated.C02.saslProhibited = some sp ∧
+      Generated.C02.bindNecessary = some bn ∧ Generated.C02.bindProhibited = some bp ∧
+      ∀ st0 : Mask, has st0 Secure = false → has st0 Authn = false →
+        ∀ rr rt, Compliant ⟨rr, rt, [⟨7, BitVec.ofNat 8 sn, BitVec.ofNat 8 sp, true⟩,
+                                     ⟨8, BitVec.ofNat 8 bn, BitVec.ofNat 8 bp, true⟩]⟩ st0 := by
+  refine ⟨_, _, _, _, rfl, rfl, rfl, rfl, ?_⟩
+  intro st0 hs ha rr rt f hf
+  simp only [List.mem_cons, List.not_mem_nil, or_false] at hf
+  revert st0
+  rcases hf with rfl | rfl <;> decide
 
 /-! ### Clear text received before the layer switch is never delivered after it -/
 
@@ -123,7 +145,7 @@ theorem C02_servername_explicit (l : List (Nat × Kind)) :
 def f1 : Feature := ⟨1, Secure, 0, true⟩
 def cfg1 : Cfg := { rr := false, rt := false, others := [f1], tee := true }
 
-example : Compliant cfg1.toFCfg := by
+example : Compliant cfg1.toFCfg 0 := by
   intro f hf
   simp only [cfg1, List.mem_singleton] at hf
   subst hf
